@@ -8,6 +8,7 @@ import DTML.Render
 import DTML.Props.C08
 import DTML.Lemmas.Cache
 import DTML.GenNs
+import DTML.Lemmas.Call
 set_option linter.unusedVariables false
 namespace DTML.Props.C02
 open DTML.Render
@@ -601,5 +602,25 @@ theorem gen_templatedict_getitem_is_model (env : Env) (fuel : Nat) (key : Text) 
   simp only [getitem, List.nil_append]
   cases lookupStack env st.stack key st.trace with
   | mk r tr => cases r <;> rfl
+
+/-! ### The call of the model is `String.__call__` of the source
+
+`GenCall.callGen` is regenerated on every run by translating `String.__call__` in /repo statement by statement
+(harness/trans_call.py): which data sources are pushed in which order on a new namespace (`md = TemplateDict()`) or on
+the caller's (`md = mapping`), which of them are counted in `pushed`, the recursion guard with the limit of the source,
+`md.level = level + 1`, the clients (one InstanceDict each, in order), the template's variables, the keyword arguments, the
+rendering with `except DTReturn`, and `finally: if pushed: md._pop(pushed); md.level = level`. -/
+
+/-- a top-level call builds exactly `callStack` - the order `lookup_precedence` / `lookup_precedence_full` are about - and
+renders the blocks in it at level 1; a value handed to dtml-return is the result -/
+theorem gen_call_is_topCall (env : Env) (fuel : Nat) (t : Template) (clients : List Val) (m kw : List (Text × Val)) :
+    (GenCall.callGen env fuel t clients (.dict m) kw {}).1 = (topCall env fuel t ⟨clients, m, kw⟩).1 ∧
+    (GenCall.callGen env fuel t clients (.dict m) kw {}).2.trace = (topCall env fuel t ⟨clients, m, kw⟩).2.trace :=
+  Lemmas.Call.call_on_new_namespace env fuel t clients m kw
+
+/-- a template invoked by name from another template (`e(None, md)`): `subtemplate_sees_caller` speaks about the source -/
+theorem gen_call_is_callSub (env : Env) (fuel id : Nat) (t : Template) (st : St) (ht : env.templates[id]? = some t) :
+    GenCall.callGen env fuel t [] .namespace [] st = callSub env (fuel + 1) id st :=
+  Lemmas.Call.call_on_caller_namespace env fuel id t st ht
 
 end DTML.Props.C02
